@@ -131,11 +131,13 @@ type sched struct {
 	log      []string
 	wg       sync.WaitGroup
 	finished chan struct{}
-	access   map[string]*accessState
+	access   map[accessKey]*accessState
 	sigs     []uint64
 	maxEn    int
 	defaults map[string]int
 	objSeq   int
+	inFire   bool
+	fireVC   VC
 	chans    []*chanCore
 }
 
@@ -160,7 +162,7 @@ func Run(cfg Config, main func()) Result {
 	if s != nil {
 		panic("vs.Run: nested execution")
 	}
-	sc := &sched{prefix: cfg.Choices, cfg: cfg, finished: make(chan struct{}), access: map[string]*accessState{}, raceSeen: map[string]bool{}, defaults: map[string]int{}}
+	sc := &sched{prefix: cfg.Choices, cfg: cfg, finished: make(chan struct{}), access: map[accessKey]*accessState{}, raceSeen: map[string]bool{}, defaults: map[string]int{}}
 	if sc.cfg.Horizon == 0 {
 		sc.cfg.Horizon = time.Hour
 	}
@@ -184,6 +186,7 @@ func Run(cfg Config, main func()) Result {
 
 func (sc *sched) newThread(name string, required bool) *thread {
 	t := &thread{id: len(sc.threads), name: name, wake: make(chan struct{}, 1), required: required, vc: VC{}}
+	t.vc[t.id] = 1 // own clock starts at 1: events nobody has synchronised with are > every other view (0)
 	sc.threads = append(sc.threads, t)
 	return t
 }
@@ -504,7 +507,9 @@ func (sc *sched) fireNext() {
 		sc.now = tm.when
 	}
 	sc.compactTimers()
+	sc.inFire, sc.fireVC = true, tm.vc
 	tm.fire()
+	sc.inFire, sc.fireVC = false, nil
 }
 
 func (sc *sched) compactTimers() {
@@ -526,6 +531,7 @@ func (sc *sched) addTimer(d time.Duration, label string, fire func()) *timer {
 	tm := &timer{when: sc.now + d, seq: sc.seq, fire: fire, label: label}
 	if sc.cur != nil {
 		tm.vc = sc.cur.vc.clone()
+		sc.cur.vc.tick(sc.cur.id)
 	}
 	sc.timers = append(sc.timers, tm)
 	return tm
@@ -534,7 +540,13 @@ func (sc *sched) addTimer(d time.Duration, label string, fire func()) *timer {
 // ---- user-facing basics -------------------------------------------------------------------------
 
 // Go starts a new thread (rewritten `go` statement).
-func Go(f func()) { GoNamed("", false, f) }
+func Go(f func()) {
+	name := ""
+	if s != nil {
+		name = fmt.Sprintf("g%d@%s", len(s.threads), callerSite(2))
+	}
+	GoNamed(name, false, f)
+}
 
 // GoNamed starts a named thread; required threads must finish for the execution to be "done".
 func GoNamed(name string, required bool, f func()) {
@@ -548,8 +560,9 @@ func GoNamed(name string, required bool, f func()) {
 	}
 	t := sc.newThread(name, required)
 	parent := sc.cur
-	parent.vc.tick(parent.id)
 	t.vc = parent.vc.clone()
+	t.vc[t.id] = 1
+	parent.vc.tick(parent.id)
 	t.op = &op{kind: opYield, desc: "start"}
 	sc.wg.Add(1)
 	go sc.root(t, f, true)
@@ -563,6 +576,11 @@ func GoFromScheduler(name string, f func()) {
 		return
 	}
 	t := sc.newThread(fmt.Sprintf("%s#%d", name, len(sc.threads)), false)
+	if sc.inFire && sc.fireVC != nil {
+		own := t.vc[t.id]
+		t.vc = sc.fireVC.clone()
+		t.vc[t.id] = own
+	}
 	t.op = &op{kind: opYield, desc: "start"}
 	sc.wg.Add(1)
 	go sc.root(t, f, true)
@@ -591,6 +609,24 @@ func WaitUntil(desc string, pred func() bool) {
 		panic("vs.WaitUntil outside an execution")
 	}
 	sc.yield(&op{kind: opCond, pred: pred, desc: desc})
+}
+
+// WaitQuiescent blocks the current thread until no other thread is enabled (all others are blocked
+// or finished): used by harnesses to let library goroutines run to rest before judging.
+func WaitQuiescent() {
+	sc := enter()
+	if sc == nil {
+		return
+	}
+	me := sc.cur
+	sc.yield(&op{kind: opCond, desc: "quiescence", pred: func() bool {
+		for _, t := range sc.threads {
+			if t != me && !t.done && sc.opEnabled(t) {
+				return false
+			}
+		}
+		return true
+	}})
 }
 
 // Logf records a harness observation.
